@@ -523,7 +523,8 @@ func c08NamedTypes(t *testing.T) []types.Type {
 		t.Fatal(err)
 	}
 	info := &types.Info{Defs: map[*ast.Ident]types.Object{}, Instances: map[*ast.Ident]types.Instance{}}
-	if _, err := (&types.Config{}).Check("zn", fset, []*ast.File{f}, info); err != nil {
+	znPkg, err := (&types.Config{}).Check("zn", fset, []*ast.File{f}, info)
+	if err != nil {
 		t.Fatal(err)
 	}
 	type ent struct {
@@ -551,5 +552,34 @@ func c08NamedTypes(t *testing.T) []types.Type {
 	if len(ret) < 20 {
 		t.Fatalf("only %d declared types found", len(ret))
 	}
+	// DISTINCT named struct types that reach the Program under the SAME full name, as cl
+	// produces them for local types of generic-function instances (two generic functions each
+	// declaring `type entry struct{...}`, instantiated with the same type argument, are both
+	// renamed "entry[int32]·1"): same field count and same kind of every member, different
+	// widths / array lengths / nested bodies. Each must keep its own layout.
+	look := func(name string) types.Type { return znPkg.Scope().Lookup(name).Type() }
+	mk := func(name string, fields ...types.Type) types.Type {
+		var vs []*types.Var
+		for i, ft := range fields {
+			vs = append(vs, types.NewField(token.NoPos, znPkg, fmt.Sprintf("f%d", i), ft, false))
+		}
+		return types.NewNamed(types.NewTypeName(token.NoPos, znPkg, name, nil), types.NewStruct(vs, nil), nil)
+	}
+	bt := func(k types.BasicKind) types.Type { return types.Typ[k] }
+	inner := func(k types.BasicKind) types.Type {
+		return types.NewStruct([]*types.Var{types.NewField(token.NoPos, znPkg, "x", bt(k), false)}, nil)
+	}
+	ret = append(ret,
+		mk("entry[int32]·1", bt(types.Int32), bt(types.Int32), look("Small"), types.NewArray(bt(types.Int16), 4)),
+		mk("entry[int32]·1", bt(types.Int32), bt(types.Int64), look("Wide"), types.NewArray(bt(types.Int16), 9)),
+		mk("node·1", bt(types.Int8), bt(types.Int8)),
+		mk("node·1", bt(types.Int64), bt(types.Int8)),
+		mk("box·1", types.NewArray(bt(types.Int32), 2)),
+		mk("box·1", types.NewArray(bt(types.Int32), 5)),
+		mk("wrap·1", inner(types.Int8), bt(types.Bool)),
+		mk("wrap·1", inner(types.Int64), bt(types.Bool)),
+		mk("flt·1", bt(types.Float32), bt(types.Int8)),
+		mk("flt·1", bt(types.Float64), bt(types.Int8)),
+	)
 	return ret
 }
